@@ -8,6 +8,8 @@
 (*   - the C11 predicates are evaluated on what the daemons really did:    *)
 (*       IdsDistinct       ids handed out for Put requests are distinct    *)
 (*       DaemonAlive       no daemon task exits, whatever arrives          *)
+(*       ForeignPduDelivered  a transaction task only ever processes PDUs   *)
+(*                         whose header carries its own (source, seq)      *)
 (*       AllEnd            every transaction task (also those started by   *)
 (*                         stray or replayed PDUs) has ended by the horizon*)
 (* One ndjson record per event; a file holds many runs, each starting with *)
@@ -68,6 +70,10 @@ Next ==
             /\ chan' = IF e.ok /\ key \in DOMAIN chan[e.ent] /\ chan[e.ent][key].st = "closed"
                        THEN [chan EXCEPT ![e.ent] = Del(chan[e.ent], key)] ELSE chan
             /\ UNCHANGED <<rs, ids, live>>
+       [] e.k = "deliver" ->
+            \* a transaction task processes only PDUs whose header names that transaction
+            /\ e.tx # e.hid => PrintT(<<"VIOL", Rec[rs].id, e.n, "C11:ForeignPduDelivered", "">>)
+            /\ UNCHANGED <<rs, chan, ids, live>>
        [] e.k = "daemon_exit" ->
             /\ PrintT(<<"VIOL", Rec[rs].id, e.n, "C11:DaemonAlive", "">>)
             /\ UNCHANGED <<rs, chan, ids, live>>
